@@ -41,8 +41,9 @@ class ArcBasedRoutingProblem(RoutingProblem):
         """ Populate the valid time points """
         # Copy the SORTED timepoints; this can be a sequence, a np array, whatever.
         # Variables are indexed by a sequence which can be made of anything,
-        # but we do assume they are sorted for some convenience
-        self.time_points = np.sort(time_points)
+        # but we do assume they are sorted for some convenience,
+        # and distinct (a repeated time point would repeat variables)
+        self.time_points = np.unique(time_points)
         return
 
     def check_arc(self, arc_key):
